@@ -45,7 +45,7 @@ TOKENS = ["{", "}", "(", ")", ":", "$", "@", "...", "!", "=", "[", "]", "a", "on
 FAULT_DOC = "{ a nn t { a b t { a } } l { a } x: b(x: 2) }"
 FAULT_PATHS = [("a",), ("nn",), ("t",), ("t", "a"), ("t", "b"), ("t", "t"), ("l",), ("l", 0, "a"), ("x",)]
 FAULT_KINDS = ["raise", "raise_te", "raise_te_ctor", "raise_shared", "return_exc", "none", "value", "raise_msgattr"]
-COERCERS = ("default", "recording", "replacing", "suspending", "returning-none", "returning-empty-dict")
+COERCERS = ("default", "recording", "replacing", "suspending", "returning-none", "returning-empty-dict", "annotating")
 
 
 class RejDirective:
@@ -88,6 +88,7 @@ class Rec:
     def __init__(self):
         self.calls = []
         self.returned = []
+        self.snapshots = {}
 
 
 REC = Rec()
@@ -116,6 +117,16 @@ async def suspending_coercer(exception, error):
     return new
 
 
+async def annotating_coercer(exception, error):
+    """the documented style: enrich the given dict in place (its `extensions` included) and return it"""
+    REC.calls.append(error)
+    error.setdefault("extensions", {})["seq"] = len(REC.calls)
+    error["extensions"]["about"] = error.get("message")
+    REC.returned.append(error)
+    REC.snapshots[id(error)] = json.dumps(error, sort_keys=True, default=repr)
+    return error
+
+
 async def none_coercer(exception, error):
     REC.calls.append(error)
     REC.returned.append(None)
@@ -137,6 +148,8 @@ def engine(kind):
         kw["error_coercer"] = replacing_coercer
     elif kind == "suspending":
         kw["error_coercer"] = suspending_coercer
+    elif kind == "annotating":
+        kw["error_coercer"] = annotating_coercer
     elif kind == "returning-none":
         kw["error_coercer"] = none_coercer
     elif kind == "returning-empty-dict":
@@ -208,6 +221,10 @@ def check_envelope(q, resp, coercer, n_coerced, returned):
             for e in errs:
                 if not any(e is r for r in returned):
                     return "coercer-return-value-not-used"
+                # ... and it still says what it said when the coercer returned it (entries must not share mutable parts)
+                snap = REC.snapshots.get(id(e))
+                if snap is not None and snap != json.dumps(e, sort_keys=True, default=repr):
+                    return "coercer-return-value-changed-afterwards"
     elif coercer != "default" and n_coerced:
         return "coercer-called-without-errors"
     return None
@@ -240,6 +257,7 @@ def one(q, coercer, op_name, variables, out, tag, faults=None, reject=None):
     scn.reject = reject
     del REC.calls[:]
     del REC.returned[:]
+    REC.snapshots.clear()
     out["counts"]["evaluations"] += 1
     try:
         resp = harness.execute(eng, q, scn, operation_name=op_name, variables=variables)
@@ -332,7 +350,7 @@ def run_shard(item):
                 one(q, c, None, None, out, tag)
     elif kind == "opvars":
         docs = ["{ a }", "query A { a } query B { nn }", "query A($v: Int) { b(x: $v) }", "query A($v: Int!) { b(x: $v) }",
-                "{ a } { nn }", "mutation A { a }", "{ a ", "query A { zzz }",
+                "{ a } { nn }", "mutation A { a }", "{ a ", "query A { zzz }", "query A { zz1 a zz2 t { zz3 } }", "query A { a(q: 1) b(q: 2) }",
                 "query A { a } query B { nn } query C { a nn }", "query A { a } query B { nn } query C { a nn } query D { nn }",
                 "query A { a } query B { nn } query C { a } query D { nn } query E { a }", "query A { a } mutation B { a } query C { nn }"]
         inputs = docs
